@@ -286,6 +286,18 @@ fn main() {
             case(&ctx, &mut part, pocket, 0, true, true, &allpicks);
         }
     }
+    {
+        // one canonical form per orbit: the number of distinct pre-flop canonical forms is the number of orbits
+        let mut classes = part.canon.clone();
+        classes.sort();
+        classes.dedup();
+        let want = robopoker::cards::street::Street::Pref.n_isomorphisms();
+        run.spec_checked += 1;
+        run.notes.push(format!("distinct canonical pre-flop forms = {} (Street::Pref.n_isomorphisms() = {want})", classes.len()));
+        if classes.len() != want {
+            run.fail("preflop-class-count", "all pre-flop observations", &format!("{want} canonical forms"), &format!("{}", classes.len()));
+        }
+    }
     merge(&mut run, part);
 
     // ---- flop: exhaustive in the thorough tier (parallel over pockets; a sample of it as lines)
@@ -334,6 +346,16 @@ fn main() {
                 .collect();
             hs.into_iter().map(|h| h.join().expect("worker")).collect()
         });
+        // distinct canonical flop forms = number of flop orbits (cross-check against the published count)
+        let mut classes: Vec<(u64, u64)> = parts.iter().flat_map(|p| p.canon.iter().copied()).collect();
+        classes.sort();
+        classes.dedup();
+        run.notes.push(format!("thorough: all flop observations enumerated; distinct canonical flop forms = {} (Street::Flop.n_isomorphisms() = {})",
+            classes.len(), robopoker::cards::street::Street::Flop.n_isomorphisms()));
+        run.spec_checked += 1;
+        if classes.len() != robopoker::cards::street::Street::Flop.n_isomorphisms() {
+            run.fail("flop-class-count", "all flop observations", &format!("{} canonical forms", robopoker::cards::street::Street::Flop.n_isomorphisms()), &format!("{}", classes.len()));
+        }
         for p in parts {
             merge(&mut run, p);
         }
@@ -355,7 +377,7 @@ fn main() {
         let pocket = rng.cards(2, pool);
         let board = rng.cards(n, pool & !pocket);
         let picks = [rng.below(24) as usize, rng.below(24) as usize];
-        case(&ctx, &mut part, pocket, board, k % 3 == 0, true, &picks);
+        case(&ctx, &mut part, pocket, board, (k / 3) % 3 == 0, true, &picks); // every street gets canon lines
         if part.lines.len() > 200_000 {
             let p = std::mem::take(&mut part);
             merge(&mut run, p);
